@@ -586,6 +586,21 @@ func stRunScenario(sc stScenario, idx int64) *stRun {
 			}
 		}
 	}
+	if createOKs == 1 && sc.cancel == "after-creation" && sc.lateRecv {
+		// once created, every receive reaches the underlying stream - also when
+		// the call's context has ended meanwhile (the stream itself reports that)
+		h.hit("C12.late-recv-after-cancel-reaches-stream")
+		found := false
+		for _, a := range uRecv {
+			if a == interface{}(lateArg) {
+				found = true
+			}
+		}
+		if !found {
+			h.fail("C12.recv-not-delegated", "after-cancel", "a RecvMsg issued after the stream was created and the context was cancelled did not reach the underlying stream (returned %v)", lateErr)
+			return h
+		}
+	}
 	if sc.creation == "err" && sc.cancel == "none" && sc.nRecv > 0 && sc.recvFirst {
 		h.hit("C12.recv-gets-creation-error")
 		if recvErrs[0] != creationErr {
@@ -666,6 +681,83 @@ func stCancelInWaitWindow(idx int64) *stRun {
 	}
 	if rerr == nil {
 		h.fail("C12.recv-early-return", "cancel-in-wait-window", "RecvMsg returned nil without a stream")
+	}
+	return h
+}
+
+// stBlockingFirstSend: the first SendMsg on the underlying stream blocks (flow
+// control); a RecvMsg issued before the first send must be released as soon as
+// the stream exists, not only when that send returns.
+type stBlockingStream struct {
+	stQuietStream
+	entered chan struct{}
+	release chan struct{}
+	recvs   int32
+}
+
+func (f *stBlockingStream) SendMsg(m interface{}) error {
+	select {
+	case f.entered <- struct{}{}:
+	default:
+	}
+	<-f.release
+	return nil
+}
+func (f *stBlockingStream) RecvMsg(m interface{}) error { atomic.AddInt32(&f.recvs, 1); return nil }
+
+func stBlockingFirstSend(idx int64) *stRun {
+	h := &stRun{hits: map[string]int64{}, idx: idx}
+	h.say("scenario blocking-first-send: RecvMsg before the first SendMsg; the underlying stream's first SendMsg blocks")
+	ctx, cancel := context.WithCancel(context.Background())
+	defer cancel()
+	under := &stBlockingStream{entered: make(chan struct{}, 1), release: make(chan struct{})}
+	streamer := func(sctx context.Context, d *grpc.StreamDesc, cc *grpc.ClientConn, method string, opts ...grpc.CallOption) (grpc.ClientStream, error) {
+		under.ctx = sctx
+		return under, nil
+	}
+	cs, err := GCPStreamClientInterceptor(ctx, &grpc.StreamDesc{}, nil, "/svc/stream", streamer)
+	if err != nil {
+		h.fail("C12.interceptor-error", "", "%v", err)
+		return h
+	}
+	var rerr error
+	recvOp := vStartOp(func() {
+		var x int
+		rerr = cs.RecvMsg(&x)
+	})
+	if st := stWaitBlocked(recvOp); st != vParked {
+		close(under.release)
+		if st == vDone && !recvOp.panicked {
+			h.fail("C12.recv-early-return", "before-send", "RecvMsg returned before any SendMsg")
+		}
+		return h
+	}
+	sendOp := vStartOp(func() { cs.SendMsg("m0") })
+	select {
+	case <-under.entered:
+	case <-sendOp.done:
+	case <-time.After(20 * time.Second):
+		close(under.release)
+		h.fail("C12.blocked", "SendMsg", "first SendMsg never reached the underlying stream")
+		return h
+	}
+	// the stream exists (its SendMsg is executing): the receiver must be released now
+	st := recvOp.awaitDone(2 * time.Second)
+	h.hit("C12.recv-released-while-send-blocks")
+	if st != vDone {
+		h.fail("C12.recv-stuck", "while-first-send-blocks", "RecvMsg is still blocked (%s, %q) although the underlying stream exists; it only waits for the first underlying SendMsg to return", st, recvOp.state)
+		close(under.release)
+		sendOp.awaitDone(2 * time.Second)
+		return h
+	}
+	close(under.release)
+	sendOp.awaitDone(2 * time.Second)
+	if recvOp.panicked || sendOp.panicked {
+		h.fail("C12.panic", "blocking-first-send", "panic: %v %v", recvOp.pval, sendOp.pval)
+		return h
+	}
+	if rerr != nil || atomic.LoadInt32(&under.recvs) != 1 {
+		h.fail("C12.recv-not-delegated", "blocking-first-send", "RecvMsg returned %v, underlying RecvMsg calls=%d", rerr, under.recvs)
 	}
 	return h
 }
@@ -759,7 +851,7 @@ func stAllScenarios() []stScenario {
 	return r
 }
 
-var stNontrivial = []string{"C12.creation-gated", "C12.recv-before-send", "C12.unary-transparent", "C12.bystander:before-send", "C12.cancel-in-wait-window"}
+var stNontrivial = []string{"C12.creation-gated", "C12.recv-before-send", "C12.unary-transparent", "C12.bystander:before-send", "C12.cancel-in-wait-window", "C12.recv-released-while-send-blocks"}
 
 func TestVerifStream(t *testing.T) {
 	env := vGetEnv()
@@ -784,6 +876,10 @@ func TestVerifStream(t *testing.T) {
 		if idx%int64(len(all)) == 0 || idx%37 == 5 {
 			h = stCancelInWaitWindow(idx)
 			sc = stScenario{creation: "gate:cancel-in-wait-window"}
+			h.sc = sc
+		} else if idx%int64(len(all)) == 1 || idx%37 == 6 {
+			h = stBlockingFirstSend(idx)
+			sc = stScenario{creation: "gate:blocking-first-send"}
 			h.sc = sc
 		} else {
 			h = stRunScenario(sc, idx)
